@@ -412,6 +412,15 @@ def check_blur(case):
                 E[(r0 + du - kH // 2) % H, (s0 + dv - kW // 2) % W, c0] += v * psf[du, dv]
         out.le(f"{site}:impulse -> centred PSF", fro(Y - E), bound, f"impulse at ({r0},{s0}) channel {c0}")
         out.label("impulse")
+    # a second kernel with the SAME tap values in the transposed shape, on the same image size in the same process: it is a
+    # different operator and must be answered for itself
+    kH_, kW_ = psf.shape
+    if kH_ != kW_ and kW_ <= H and kH_ <= W:
+        psf2 = np.ascontiguousarray(psf.reshape(kW_, kH_))
+        ok2, Y2 = out.call(site + "(reshaped kernel)", L.qslst.apply_blur_fft, X, psf2)
+        if ok2 and img_ok(site + "(reshaped kernel)", out, Y2, X.shape):
+            out.le(f"{site}:kernel with the same taps in the transposed shape is its own operator", fro(Y2 - conv_def(X, psf2)),
+                   bound, f"psf {psf2.shape} after {psf.shape} on {H}x{W}")
     # channels are blurred independently and identically
     perm = case.get("perm", [1, 2, 3, 0])
     ok, Yp = out.call(site, L.qslst.apply_blur_fft, np.ascontiguousarray(X[..., perm]), psf)
